@@ -60,7 +60,10 @@ impl BlockDecoder {
                 self.decoder = Some(Box::new(codec));
             }
             oti::FECEncodingID::ReedSolomonGF2M => {
-                log::warn!("Not implemented")
+                // No decoder is available, push() requires one
+                return Err(FluteError::new(
+                    "Reed Solomon GF(2^m) decoder is not implemented",
+                ));
             }
             oti::FECEncodingID::RaptorQ => {
                 if let Some(SchemeSpecific::RaptorQ(scheme)) = oti.scheme_specific.as_ref() {
